@@ -287,6 +287,17 @@ class G:
         self.leaves_of[r] = self.leaves_of.get(lhs, frozenset()) | self.leaves_of.get(rhs, frozenset())
         return r
 
+    def joinb(self, lhs: str, rhs: str, common, pred=None) -> str:
+        """`Join(pred, min_columns=S, max_columns=S).apply(lhs, rhs)`: the binary operation applied directly."""
+        r = self.fresh()
+        self.emit(["joinb", r, lhs, rhs, sorted(common), pred or ["plit", "T"]])
+        self.cols[r] = self.cols[lhs] | self.cols[rhs]
+        self.eng[r] = self.eng[lhs]
+        if lhs in self.has_chain or rhs in self.has_chain:
+            self.has_chain.add(r)
+        self.leaves_of[r] = self.leaves_of.get(lhs, frozenset()) | self.leaves_of.get(rhs, frozenset())
+        return r
+
     def joinmax(self, lhs: str, rhs: str, cap, pred=None, opts=None) -> str:
         """A join whose automatic common columns are capped by `max_columns`."""
         r = self.fresh()
@@ -814,7 +825,11 @@ def prog_sql(seed: int, n_ops: int = 8, *, sorts: float = 1.0, selfjoin: float =
             pred = None
             if rng.random() < 0.45 and (g.cols[t] | g.cols[u]):
                 pred = g.pred(g.cols[t] | g.cols[u], 1)
-            r = g.join(t, u, pred)
+            if rng.random() < 0.12:
+                # the binary operation applied directly, common columns given explicitly (the shared key columns)
+                r = g.joinb(t, u, sorted(c for c in g.cols[t] & g.cols[u] if KEY[c]), pred)
+            else:
+                r = g.join(t, u, pred)
         observed.append(r)
     for r in observed:
         g.emit(["sqlexec", r])
@@ -1374,8 +1389,20 @@ def prog_illformed(seed: int, n_ops: int = 5) -> G:
     cmd = None
     if kind == "missing-column":
         m = rng.choice(missing)
-        sub = rng.choice(["calc", "sel", "sort", "proj", "join", "joinon", "joinon"])
+        sub = rng.choice(["calc", "sel", "sort", "proj", "join", "joinon", "joinon", "joinb", "joinb"])
         jo = None
+        if sub == "joinb":
+            # the binary operation applied directly with explicit (resolved) common columns, its predicate over a
+            # column neither operand has
+            cands = [u for u in pool if g.eng[u] == g.eng[t] and not (g.cols[u] & cols & NONKEY)
+                     and (set(BASE_COLS + NEW_TAGS) - cols - g.cols[u])]
+            if cands:
+                u = rng.choice(cands)
+                miss = sorted(set(BASE_COLS + NEW_TAGS) - cols - g.cols[u])
+                jo = ["joinb", r, t, u, sorted(c for c in g.cols[t] & g.cols[u] if KEY[c]),
+                      ["pfn", "lt", "*", ["ref", rng.choice(miss)], ["lit", 1]]]
+            else:
+                sub = "sel"
         if sub == "joinon":
             # explicit common columns that the FIXED operand has and the target lacks
             cands = [(u, k) for u in pool for k in sorted(g.cols[u] - cols) if KEY[k]
@@ -1403,6 +1430,10 @@ def prog_illformed(seed: int, n_ops: int = 5) -> G:
             both_missing = sorted(set(BASE_COLS + NEW_TAGS) - cols - g.cols[u])
             if not both_missing or (g.cols[u] & cols & NONKEY):
                 cmd = ["apply", r, t, ["sel", ["pfn", "lt", "*", ["ref", m], ["lit", 1]]], anyopts]
+            elif rng.random() < 0.3 and g.eng[u] == g.eng[t]:
+                # the binary operation applied directly with explicit (resolved) common columns
+                cmd = ["joinb", r, t, u, sorted(c for c in g.cols[t] & g.cols[u] if KEY[c]),
+                       ["pfn", "lt", "*", ["ref", both_missing[0]], ["lit", 1]]]
             elif rng.random() < 0.6:
                 # the same request through `apply` with an explicit preferred engine / every option
                 cmd = ["joinp", r, t, u, ["pfn", "lt", "*", ["ref", both_missing[0]], ["lit", 1]], anyopts]
